@@ -503,6 +503,17 @@ func (fr *c15Frame) closure(l *c15Lambda) (*c15Closure, *c15Exc) {
 func (fr *c15Frame) assign(a *c15Assign) *c15Exc {
 	vals, exc := fr.exprs(a.RHS)
 	if exc != nil {
+		// whether the lvalue or the right-hand side is evaluated first is not
+		// documented: if the lvalue cannot be resolved either, do not judge
+		for _, lv := range a.LHS {
+			if sl := fr.lookup(lv.Name); sl != nil && len(lv.Idx) > 0 {
+				if idx, e2 := fr.exprs(lv.Idx); e2 == nil {
+					if _, e3 := c15AssocPath(sl.V, idx, c15Nil{}); e3 != nil {
+						c15Unmod("both the element lvalue and the right-hand side of set fail")
+					}
+				}
+			}
+		}
 		return exc
 	}
 	if a.Kind == "var" && !a.HasEq {
@@ -603,6 +614,9 @@ func c15AssocPath(cont c15Val, idx []c15Val, v c15Val) (c15Val, *c15Exc) {
 			return nil, exc
 		}
 		return c.assoc(idx[0], nv), nil
+	}
+	if _, isStr := cont.(string); isStr {
+		c15Unmod("element assignment to a string")
 	}
 	return nil, c15Err("error", "element assignment to a value that is not a list or map")
 }
